@@ -782,11 +782,67 @@ func GenCase(prop string, seed uint64, thorough bool) *Case {
 			c.Clients[0] = ops
 			c.Faults = nil
 			c.Rot = true
+		} else if prop == "C08" && r.p(0.15) {
+			g.deepTombstones(c)
 		} else {
 			g.faultPlan(c, prop)
 		}
 	}
 	return c
+}
+
+// deepTombstones: a deep tree (tiny tables and level budgets) whose keys are
+// then deleted, with failures of table-file operations while the deletion
+// markers are compacted downward: a compaction that fails half-way and is
+// retried must come to the same verdict about every marker as a fresh one.
+func (g *gen) deepTombstones(c *Case) {
+	r := g.r
+	c.Knobs.WriteBuffer = r.pick(1024, 2048, 4096)
+	g.wb = c.Knobs.WriteBuffer
+	c.Knobs.TableSize = r.pick(512, 1024, 2048)
+	c.Knobs.TotalSize = r.pick(1024, 4096)
+	c.Knobs.TotalMult = 2
+	c.Knobs.MaxManifest = 0
+	var ops []Op
+	put := func(k B, l int) {
+		g.nextID++
+		ops = append(ops, Op{K: "put", Key: k, Val: V{ID: g.nextID, Len: l}})
+	}
+	for i := r.rng(2, 4); i > 0; i-- {
+		for _, k := range g.keys {
+			put(B(k), r.rng(100, 400))
+		}
+		ops = append(ops, Op{K: "compact"})
+	}
+	ops = append(ops, Op{K: "reopen"}) // the faults below are counted from here (epoch 1)
+	for _, k := range g.keys {
+		if r.p(0.7) {
+			ops = append(ops, Op{K: "del", Key: B(k)})
+		}
+	}
+	for i := r.rng(3, 12); i > 0; i-- {
+		put(append(append(B{}, g.key()...), '~', byte('a'+r.intn(6))), r.rng(200, 600))
+	}
+	if r.p(0.7) {
+		ops = append(ops, Op{K: "compact"})
+	}
+	ops = append(ops, Op{K: "sleep", Ms: r.pick(1000, 31000)})
+	for _, k := range g.keys {
+		ops = append(ops, Op{K: "get", Key: B(k)})
+	}
+	if r.p(0.5) {
+		ops = append(ops, Op{K: "compact"})
+	}
+	ops = append(ops, Op{K: "reopen"})
+	for _, k := range g.keys {
+		ops = append(ops, Op{K: []string{"get", "has"}[r.intn(2)], Key: B(k)})
+	}
+	ops = append(ops, g.iterOp("", 0, 40))
+	c.Clients = [][]Op{ops}
+	c.Faults = nil
+	for i := r.rng(1, 3); i > 0; i-- {
+		c.Faults = append(c.Faults, &simdisk.Fault{Kind: "err", Op: []string{simdisk.OpSync, simdisk.OpSync, simdisk.OpWrite, simdisk.OpClose, simdisk.OpCreate}[r.intn(5)], FT: int(storage.TypeTable), Nth: r.rng(1, 14), Count: r.rng(1, 2), Epoch: 1})
+	}
 }
 
 // crashPlan places 1..3 crash points, biased toward moments of in-flight state.
